@@ -357,7 +357,36 @@ func c10(c *core.Ctx, r *core.Report) {
 	rule(r, "C10.R2", "MaxDuration accumulates every stage's Duration exactly once (an unconditional += in a loop over all stages); CalculateStagedRate reports it as Rates.Duration and the staged trigger's Duration is that field", func() {
 		md := c.MustFn(spkg, "RateCalculator.MaxDuration")
 		okAcc := false
-		for _, ret := range an.Returns(md) {
+		// the function holding the accumulation: MaxDuration, or a helper it hands the stage list to
+		accFn := md
+		isStages := func(v ssa.Value) bool { return isLoadOf(v, stagesFld) }
+		for hop := 0; hop < 2; hop++ {
+			rets := an.Returns(accFn)
+			if len(rets) != 1 {
+				break
+			}
+			call, isCall := an.Strip(rets[0].Results[0]).(*ssa.Call)
+			if !isCall {
+				break
+			}
+			h := an.Callee(call)
+			if h == nil || core.RelPkg(h) != spkg || h.Blocks == nil {
+				break
+			}
+			idx := -1
+			for i, a := range call.Call.Args {
+				if isStages(a) {
+					idx = i
+				}
+			}
+			if idx < 0 || idx >= len(h.Params) {
+				break
+			}
+			hp := h.Params[idx]
+			accFn = h
+			isStages = func(v ssa.Value) bool { return an.Strip(v) == ssa.Value(hp) }
+		}
+		for _, ret := range an.Returns(accFn) {
 			phi, ok := ret.Results[0].(*ssa.Phi)
 			if !ok {
 				r.Violation("MaxDuration#sum", an.Pos(c, ret), "MaxDuration returns %s, not an accumulator over the stages", an.D().Of(ret.Results[0]))
@@ -395,8 +424,8 @@ func c10(c *core.Ctx, r *core.Report) {
 								base = an.Strip(sts[0].Val)
 							}
 						}
-						if ia, isIA := base.(*ssa.IndexAddr); isIA && isLoadOf(ia.X, stagesFld) {
-							sw, okSw := indexSweep(md, ia.Index, bo, func(v ssa.Value) bool { return isLoadOf(v, stagesFld) })
+						if ia, isIA := base.(*ssa.IndexAddr); isIA && isStages(ia.X) {
+							sw, okSw := indexSweep(accFn, ia.Index, bo, isStages)
 							if okSw && sw.guardOK && sw.entryOK {
 								up := sw.first.eq(aff{0, 0, 0, true}) && sw.perIter == 1 && sw.guardNorm.eq(aff{1, 0, -1, true}.sub(sw.idx))
 								down := sw.first.eq(aff{1, 0, -1, true}) && sw.perIter == -1 && sw.guardNorm.eq(sw.idx)
